@@ -15,9 +15,11 @@ tree_map/replace/setattr against the model plus jit-retrace / vmap / grad oracle
 """
 from __future__ import annotations
 
+import collections
 import gc
 import json
 import pickle
+import types
 
 from harness import compat  # noqa: F401  (must precede flax)
 from harness.common import LeanDriver, load_corpus, InfraError
@@ -33,7 +35,7 @@ SPEC = {
   'exes': ['drv_c15'],
   'rule': (
     'FrozenDict: a case is one history of 5-24 operations (user dict construction and mutation: newDict/newLeaf/'
-    'setKey/delKey; API: getitem/items/freeze/unfreeze/copy/pop/pickle/tree_map, function and method forms) over '
+    'setKey/delKey; API: getitem/items/freeze/unfreeze/copy (add_or_replace a dict, a FrozenDict, or a MappingProxyType/ChainMap/UserDict view of one)/pop/pickle/tree_map, function and method forms) over '
     'nested dicts mixing dict / FrozenDict / int / None / str / tuple / list / ndarray leaves with aliased sub-dicts; '
     'non-trivial when it contains at least one FrozenDict creation and one later user mutation. Struct: a case is one '
     'random field layout (1-5 fields, data/meta mix, nested structs as data and as static values) with its replace / '
@@ -51,11 +53,11 @@ SPEC = {
     'keys are strings (tree_flatten sorts keys; mixed incomparable keys raise in sorted())',
     'private attributes (_dict, _hash, object.__setattr__) are not an API',
     'tree_flatten hands out the raw inner dicts as children (visible only with a custom is_leaf): flatten/unflatten is claimed as value equality only (DESIGN.md §7)',
-    'Python hash of keys/leaves and the tuple-hash combiner are parameters of the hash theorem',
+    'Python hash of keys/leaves and the tuple-hash combiner are parameters of the hash theorems; the _hash slot is modelled as a side table keyed by the FrozenDict object (it is reachable through no API)',
     'dataclasses machinery (__init__/__setattr__ generation, dataclasses.replace) and jax.tree_util.register_dataclass are modelled, not verified',
   ],
   'model_partial': [
-    'no `…_partial` theorem; gaps of the theorem set, covered by correspondence only: (1) contents of copy(x, add_or_replace) with a non-empty add (merge semantics) and of module-level copy/pop on plain dicts and of items() have no content theorem (separation and never-changes do cover them); (2) fuel sufficiency of the deep walks (no Recursion error on acyclic heaps) is not proved — the driver never returned Recursion on any generated history; (3) eq_order_independent / flatten_order_independent / mapEq_same_content assume distinct keys at every level (wfTree, true of every Python dict) instead of deriving it from the heap invariant; (4) the _hash cache is not a heap field: hash_cache_never_stale is the corollary "the hashed value never changes"; (5) the jit/vmap/grad clause of struct rests on A-JIT/A-VMAP/A-AD: the theorems say the treedef carries class + static fields and tree_map keeps it, the transforms themselves are exercised by the oracles only',
+    'no `…_partial` theorem. Closed in phase 2: fuel sufficiency (deep_total, frozen_depth, frozen_api_total, acyclic_api_total), content of copy(x, add) for a FrozenDict x (copy_add_content), of module-level copy/pop on plain dicts (copy_dict_same_content, pop_dict_same_content) and of iteration (items_same_content, incl. freshness of every yielded FrozenDict), distinct keys derived from the heap invariant (keys_nodup in HeapInv, abs_wfTree, heap_values_order_independent), explicit _hash cache (HWorld/hstep, hash_returns_fresh_hash). Remaining, correspondence only: (1) contents of module-level copy(d, add) on a plain dict with a non-empty add (dict.update shares the values of a dict add by reference, as Python does); (2) for user dicts fuel sufficiency is conditional on acyclicity within the fuel (Depth hypothesis of acyclic_api_total): a user can build a cyclic dict and Python then raises RecursionError; (3) pop_dict_same_content is stated relative to the key-sorted entries (jax rebuilds dicts sorted); (4) the jit/vmap/grad clause of struct rests on A-JIT/A-VMAP/A-AD: the theorems say the treedef carries class + static fields and tree_map keeps it, the transforms themselves are exercised by the oracles only',
   ],
 }
 
@@ -166,6 +168,12 @@ def impl_step(roots, op):
       x = roots[op[1]]
       args = () if op[2] is None else (roots[op[2]],)
       roots.append(x.copy(*args) if (var == 'method' and isinstance(x, FrozenDict)) else fz.copy(x, *args))
+    elif tag == 'copyView':
+      # add_or_replace given as a Mapping that is neither dict nor FrozenDict, viewing a held dict / FrozenDict
+      x = roots[op[1]]
+      src = roots[op[2]]
+      view = {'proxy': types.MappingProxyType, 'chainmap': collections.ChainMap, 'userdict': collections.UserDict}[op[3]](src)
+      roots.append(x.copy(view) if (var == 'method' and isinstance(x, FrozenDict)) else fz.copy(x, view))
     elif tag == 'pop':
       x = roots[op[1]]
       rest, val = x.pop(op[2]) if (var == 'method' and isinstance(x, FrozenDict)) else fz.pop(x, op[2])
@@ -428,6 +436,15 @@ def gen_history(rng, nops, hr):
         if add is not None and kind_of(roots[add]) == 'leaf' and type(roots[add]) is not int:
           add = None
         op = ['copy', x, add, rng.choice(['fn', 'method'])]
+        if add is not None and rng.random() < 0.45:
+          # the same update passed as a non-dict Mapping view (prefer sources that hold nested dicts)
+          nested = [i for i, v in enumerate(roots) if kind_of(v) == 'dict' and any(kind_of(u) == 'dict' for u in v.values())]
+          if nested and rng.random() < 0.7:
+            add = rng.choice(nested)
+          if kind_of(roots[add]) != 'leaf':
+            op = ['copyView', x, add, rng.choice(['proxy', 'chainmap', 'userdict']), rng.choice(['fn', 'method'])]
+          elif type(roots[add]) is int:
+            op = ['copyView', x, add, 'proxy', rng.choice(['fn', 'method'])]
       elif r < 0.92:
         x = pick('frozen') if (rng.random() < 0.6 and nf) else pick('dict')
         op = ['pop', x, key_for(roots[x]), rng.choice(['fn', 'method'])]
@@ -701,7 +718,7 @@ def history_stats(ctx, hr):
     if isinstance(r, FrozenDict):
       depth = max(depth, _depth(strip(dump_impl(r))))
   ctx.count('max_frozen_depth', depth)
-  first_fz = next((i for i, (op, st) in enumerate(zip(hr.ops, hr.steps)) if op[0] in ('freeze', 'copy', 'pop', 'pickle', 'treeMap', 'getitem') and st['r'] == 'ok' and any(isinstance(x, FrozenDict) for x in hr.roots[: st['n']])), None)
+  first_fz = next((i for i, (op, st) in enumerate(zip(hr.ops, hr.steps)) if op[0] in ('freeze', 'copy', 'copyView', 'pop', 'pickle', 'treeMap', 'getitem') and st['r'] == 'ok' and any(isinstance(x, FrozenDict) for x in hr.roots[: st['n']])), None)
   mutated_after = first_fz is not None and any(
     op[0] in ('setKey', 'delKey') and st['r'] == 'ok' for op, st in list(zip(hr.ops, hr.steps))[first_fz + 1 :]
   )
@@ -773,6 +790,8 @@ def run_histories(ctx, drv, n, replay_ops=None):
 
 
 def _model_op(op):
+  if op[0] == 'copyView':
+    return op[:3]
   return [x for x in op if x not in ('fn', 'method', 'ctor')] if op[0] not in ('setKey', 'delKey', 'getitem', 'pop') else op[: {'setKey': 4, 'delKey': 3, 'getitem': 3, 'pop': 3}[op[0]]]
 
 
@@ -801,7 +820,8 @@ def _catalogue(roots, hs):
     if k == 'leaf':
       continue
     out += [['getitem', h, 'a'], ['getitem', h, 'zz'], ['items', h, 'fn'], ['freeze', h, 'ctor'], ['unfreeze', h, 'fn'],
-            ['copy', h, None, 'fn'], ['copy', h, 0, 'fn'], ['copy', h, 4, 'method'], ['pop', h, 'a', 'method'], ['pop', h, 'zz', 'fn'],
+            ['copy', h, None, 'fn'], ['copy', h, 0, 'fn'], ['copy', h, 4, 'method'], ['copyView', h, 0, 'proxy', 'method'],
+            ['copyView', h, 0, 'chainmap', 'fn'], ['pop', h, 'a', 'method'], ['pop', h, 'zz', 'fn'],
             ['treeMap', h], ['setKey', h, 'n', 1], ['setKey', h, 'a', 4], ['delKey', h, 'a']]
     if k == 'frozen':
       out.append(['pickle', h])
@@ -1184,7 +1204,7 @@ def run(ctx):
     run_histories(ctx, drv, 0, replay_ops=exh[i : i + 400])
   ctx.extra['exhaustive_scope'] = (
     f'all {len(exhaustive_histories(2))} two-operation continuations of a fixed nested world (source with an aliased nested dict, a FrozenDict of it, '
-    'the FrozenDict stored back into the source) over the 15-16 operation alphabet per handle' + ('; plus 12000 sampled three-operation continuations' if thorough else '')
+    'the FrozenDict stored back into the source) over the 17-18 operation alphabet per handle' + ('; plus 12000 sampled three-operation continuations' if thorough else '')
   )
   ctx.count('exhaustive_histories', 'depth2+', len(exh))
   n_hist = 1500 if not thorough else 40000
